@@ -2,9 +2,11 @@ package main
 
 import (
 	"crypto/sha256"
+
 	"encoding/binary"
 	"flag"
 	"fmt"
+	otr3 "github.com/coyim/otr3"
 	"math/big"
 	"math/rand"
 	"os"
@@ -227,7 +229,7 @@ func cmdAttacks(args []string) int {
 		runs++
 		events += w.N
 		if len(w.Panics) > 0 {
-			fmt.Printf("PANIC attack %s\n", w.Panics[0])
+			fmt.Printf("PANIC attack %s\n", firstLines(w.Panics[0], 1))
 		}
 	}
 	reps := 1
@@ -320,6 +322,17 @@ func cmdAttacks(args []string) int {
 					w.ReceiveAttack(w.P["A"], m.Raw, "reflect/"+fmt.Sprint(m.Abs["t"]))
 				}
 				finish(w)
+			}
+		} else if *kind == "relay" {
+			// a relay E sits between two separately keyed sessions A<->E and E<->B and passes the
+			// SMP payloads through verbatim: SMP must never report success, even with equal secrets
+			for _, version := range []int{3, 2} {
+				for _, secrets := range [][2]int{{5, 5}, {5, 6}, {1, 1}} {
+					for _, starter := range []string{"A", "B"} {
+						relayRun(sd, of, version, secrets, starter)
+						runs++
+					}
+				}
 			}
 		} else if *kind == "tags" {
 			// own instance tag generation for every kind of randomness output: values below
@@ -468,4 +481,126 @@ func bytesEqual(a, b []byte) bool {
 		}
 	}
 	return true
+}
+
+// relayRun: parties A (peer C), C and D (both run by E with E's key), B (peer D).
+func relayRun(seed uint64, of *os.File, version int, secrets [2]int, starter string) {
+	w := world.New(seed, of)
+	pol := world.PolicyFromBits(polFor(version))
+	w.AddParty("A", "C", pol, 0)
+	w.AddParty("B", "D", pol, 0)
+	w.AddPartyKey("C", "A", pol, 0, "E").Mute = true
+	w.AddPartyKey("D", "B", pol, 0, "E").Mute = true
+	w.InitFam("relay")
+	pump := func(x, y string) {
+		for i := 0; i < 20 && (len(w.P[x].Queue) > 0 || len(w.P[y].Queue) > 0); i++ {
+			if len(w.P[y].Queue) > 0 {
+				w.Deliver(w.P[y])
+			}
+			if len(w.P[x].Queue) > 0 {
+				w.Deliver(w.P[x])
+			}
+		}
+	}
+	w.Query(w.P["A"])
+	pump("A", "C")
+	w.Query(w.P["D"])
+	pump("D", "B")
+	// relay moves every SMP-carrying message waiting at one of E's endpoints to the other session
+	text := 100
+	relay := func(at, via, to string) bool {
+		moved := false
+		for len(w.P[at].Queue) > 0 {
+			m := w.P[at].Queue[0]
+			w.P[at].Queue = w.P[at].Queue[1:]
+			tl, _ := m.Abs["tlvs"].([]int)
+			if m.Abs["t"] != "D" || len(tl) == 0 {
+				continue
+			}
+			mac, _ := m.Abs["mac"].([]int)
+			if len(mac) != 2 || mac[0] <= 0 {
+				continue
+			}
+			raw := rawOf(m)
+			h, _ := ref.ParseHeader(raw)
+			d, err := ref.ParseData(h.Body)
+			if err != nil {
+				continue
+			}
+			keys := w.Reg.Sess(w.Reg.Secret(mac[0]), w.Reg.Secret(mac[1]))
+			_, tlvs, _ := ref.SplitPlain(ref.CTR(keys.SendAES, d.Ctr[:], d.Enc))
+			var smp []ref.TLV
+			for _, t := range tlvs {
+				if t.Type >= 2 && t.Type <= 7 {
+					smp = append(smp, t)
+				}
+			}
+			if len(smp) == 0 {
+				continue
+			}
+			// a carrier message of E's other endpoint, content replaced
+			text++
+			n := len(w.P[to].Queue)
+			w.Send(w.P[via], text)
+			if len(w.P[to].Queue) != n+1 {
+				continue
+			}
+			carrier := w.P[to].Queue[n]
+			w.P[to].Queue = w.P[to].Queue[:n]
+			craw := rawOf(carrier)
+			ch, _ := ref.ParseHeader(craw)
+			cd, err := ref.ParseData(ch.Body)
+			cmac, _ := carrier.Abs["mac"].([]int)
+			if err != nil || len(cmac) != 2 || cmac[0] <= 0 {
+				continue
+			}
+			ckeys := w.Reg.Sess(w.Reg.Secret(cmac[0]), w.Reg.Secret(cmac[1]))
+			cd.Flag = 1
+			cd.Enc = ref.CTR(ckeys.SendAES, cd.Ctr[:], ref.JoinPlain(nil, smp))
+			cd.MAC = ref.HMAC1(ckeys.SendMAC, ch.HdrBytes, cd.Unsigned())
+			// the relayed payload still is what its original author bound
+			src := w.P[m.From]
+			w.P[via].SMPTerm, w.P[via].SMPRun = src.SMPTerm, src.SMPRun
+			w.InjectRaw(w.P[to], ref.Armor(append(append([]byte{}, ch.HdrBytes...), cd.Bytes()...)))
+			moved = true
+		}
+		return moved
+	}
+	ini, oth := w.P["A"], w.P["B"]
+	s1, s2 := secrets[0], secrets[1]
+	if starter == "B" {
+		ini, oth = oth, ini
+	}
+	w.SMPStart(ini, secretBytes(s1), "", s1)
+	answered := false
+	for round := 0; round < 8; round++ {
+		a := relay("C", "D", "B")
+		for len(w.P["B"].Queue) > 0 {
+			w.Deliver(w.P["B"])
+		}
+		if !answered && otrSMPWaiting(oth) {
+			w.SMPAnswer(oth, secretBytes(s2), s2)
+			answered = true
+		}
+		b := relay("D", "C", "A")
+		for len(w.P["A"].Queue) > 0 {
+			w.Deliver(w.P["A"])
+		}
+		if !answered && otrSMPWaiting(oth) {
+			w.SMPAnswer(oth, secretBytes(s2), s2)
+			answered = true
+		}
+		if !a && !b && len(w.P["C"].Queue) == 0 && len(w.P["D"].Queue) == 0 {
+			break
+		}
+	}
+	w.Done()
+	w.Flush()
+	if len(w.Panics) > 0 {
+		fmt.Printf("PANIC relay %s\n", firstLines(w.Panics[0], 1))
+	}
+}
+
+func otrSMPWaiting(p *world.Party) bool {
+	return otr3.VerifProject(p.Conv).SMPState == "waiting"
 }
